@@ -189,3 +189,19 @@ pub fn glob_query(pattern: &str) -> Option<Vec<String>> {
         Err(_) => None,
     }
 }
+
+/// plan `line` and run its first command as a builtin with captured output.
+/// Err = planning failed; Ok(None) = not a builtin / empty.
+pub fn run_builtin_line(sh: &mut Shell, line: &str) -> Result<Option<CommandResult>, String> {
+    let cl = CommandLine::from_line(line, sh)?;
+    if cl.commands.is_empty() || cl.commands[0].tokens.is_empty() {
+        return Ok(None);
+    }
+    Ok(crate::core::verif_export::try_run_builtin(sh, &cl, 0, true))
+}
+
+pub fn alias_table(sh: &Shell) -> Vec<(String, String)> {
+    let mut v = sh.get_alias_list();
+    v.sort();
+    v
+}
